@@ -110,3 +110,65 @@ pub(crate) fn yield_point(site: u64) {
         }
     });
 }
+
+// ---------------------------------------------------------------------------------------------
+// Event trace of the concurrent checkers: one entry per critical section of the job market and per
+// operation on the shared maps in `check_block`. While tracing is on, the shared-map operations
+// are serialised by `trace_guard()` so that the order of the entries IS the order of the
+// operations; market entries are appended while the market mutex is held. Off by default.
+
+/// (worker index or `u64::MAX` for any other thread, kind, a, b)
+pub type TraceEntry = (u64, u8, u64, u64);
+
+pub const TR_POP_GOT: u8 = 1; // a = batch size, b = 1 if after a wake
+pub const TR_POP_EMPTY: u8 = 2; // a = 1 if the market was found closed on entry, b = 1 if after a wake
+pub const TR_POP_PARK: u8 = 3; // b = 1 if after a wake
+pub const TR_PUSH: u8 = 5; // a = batch size, b = 1 if the market was closed (batch dropped)
+pub const TR_SPLIT: u8 = 7; // a = deque length before, b = deque length after
+pub const TR_SPLIT_PIECE: u8 = 8; // a = size of one published batch
+pub const TR_SPLIT_CLOSED: u8 = 9; // a = number of jobs cleared
+pub const TR_DROP: u8 = 10;
+pub const TR_TIMEOUT: u8 = 11;
+pub const TR_TAKE: u8 = 20; // a = fingerprint, b = depth
+pub const TR_PROP: u8 = 21; // a = property index, b = 0 skipped (already discovered) / 1 discovery inserted / 2 evaluated, no discovery
+pub const TR_EXPAND: u8 = 22; // a = fingerprint of the successor, b = 1 if newly generated
+pub const TR_RECORD: u8 = 23; // a = property index (terminal state, eventually-property discovery)
+pub const TR_STOP: u8 = 24; // a = 1 finish_when, 2 target_state_count, 3 market shut down, 4 pop returned nothing
+
+static TRACE_ON: std::sync::atomic::AtomicBool = std::sync::atomic::AtomicBool::new(false);
+static TRACE: std::sync::Mutex<Vec<TraceEntry>> = std::sync::Mutex::new(Vec::new());
+static TRACE_LOCK: std::sync::Mutex<()> = std::sync::Mutex::new(());
+
+thread_local! {
+    static WORKER: std::cell::Cell<u64> = const { std::cell::Cell::new(u64::MAX) };
+}
+
+pub fn trace_start() {
+    TRACE.lock().unwrap_or_else(|e| e.into_inner()).clear();
+    TRACE_ON.store(true, Ordering::SeqCst);
+}
+
+pub fn trace_stop() -> Vec<TraceEntry> {
+    TRACE_ON.store(false, Ordering::SeqCst);
+    std::mem::take(&mut *TRACE.lock().unwrap_or_else(|e| e.into_inner()))
+}
+
+pub(crate) fn set_worker(t: usize) {
+    WORKER.with(|w| w.set(t as u64));
+}
+
+pub(crate) fn trace(kind: u8, a: u64, b: u64) {
+    if TRACE_ON.load(Ordering::Relaxed) {
+        let w = WORKER.with(|w| w.get());
+        TRACE.lock().unwrap_or_else(|e| e.into_inner()).push((w, kind, a, b));
+    }
+}
+
+/// Held across one shared-map operation and its trace entry (only while tracing).
+pub(crate) fn trace_guard() -> Option<std::sync::MutexGuard<'static, ()>> {
+    if TRACE_ON.load(Ordering::Relaxed) {
+        Some(TRACE_LOCK.lock().unwrap_or_else(|e| e.into_inner()))
+    } else {
+        None
+    }
+}
